@@ -4,10 +4,54 @@ NOTES = ("Machine-checked proof in Coq 8.16.1. Each check: regenerate Gen/*.v fr
          "evaluating the property on the implementation's own outputs to turn a broken obligation into a concrete replay. "
          "See DESIGN.md.")
 NOT_APPLICABLE = {}
+
+def _c(text, ref, technique, note):
+    return dict(text=text, design_ref=ref, technique=technique, note=note)
+
+_T = ("Trusted: Coq 8.16.1 kernel + vm_compute; the hand-written Gallina model, tied to the code by an exact correspondence run on every check "
+      "(rank/IEEE order encoding of floats); harness/common.py. ")
+
 CHECKS = {
- "C05": dict(
-   text="Theorems in Props/C05.v over the Gallina model of core/heap.py (Model/Heap.v), for every capacity, policy, cost order and valid history; "
-        "the model is tied to heap.py by an exact correspondence on the full internal state after every operation.",
-   design_ref="5/C05", technique="Coq proof: heap invariant by induction over histories + refinement to an abstract priority queue; model/impl correspondence",
-   note="Trusted: Coq kernel+vm_compute; the hand-written model (validated, not proved, against heap.py by the correspondence); harness encoding. Costs non-NaN; indices < 2^53."),
+ "C01": _c("Props/C01.v: for every n, label assignment, weight function (zero <= w < FLOAT_MAX) and non-empty prototype set, the modelled fit (heap-driven competition) "
+           "yields costs equal to the minimum over all prototype-rooted paths of the largest arc (lower bound for every path + attainment), an acyclic predecessor forest with the "
+           "link equation, root labels, and a conquest order that is a cost-sorted permutation. Model tied to supervised.py by exact correspondence on cost/pred/labels/order.",
+           "5/C01", "Coq proof: Dijkstra-style loop invariant over the proved heap specification + path certificate lemma; model/impl correspondence",
+           _T + "Weights finite, non-NaN, < FLOAT_MAX (sentinel)."),
+ "C02": _c("Props/C02.v: the modelled _find_prototypes builds a spanning tree that is minimax-optimal against every path of the complete graph (order-only MST characterisation), "
+           "of minimum total weight, unique under distinct weights; prototypes are exactly the class-crossing endpoints; every class gets one. Tied by exact correspondence on keys/pred/status.",
+           "5/C02", "Coq proof: Prim all-paths invariant, threshold-counting minimum-weight argument, uniqueness; model/impl correspondence", _T + "Symmetric weights < FLOAT_MAX."),
+ "C03": _c("Props/C03.v: the cost-ordered scan with early exit returns the label of the first minimiser of max(cost, d) over ALL training samples, for every forest whose order is cost-sorted "
+           "and every distance function; equal to the scan without early exit. Tied by exact correspondence on predictions (supervised and semi-supervised).",
+           "5/C03", "Coq proof: scan loop invariant; model/impl correspondence", _T),
+ "C05": _c("Props/C05.v over Model/Heap.v (statement-by-statement transcription of core/heap.py): invariant preserved by every valid op, remove returns an extremal queued element, "
+           "histories refine an abstract priority queue, conservation of inserted elements, failed insert/remove leave the state unchanged, empty/full truthful; any capacity/policy/ties. "
+           "Tied by exact correspondence on the full internal state after every operation (random, invalid and exhaustive-small histories).",
+           "5/C05", "Coq proof: heap invariant by induction over histories + refinement to an abstract priority queue; model/impl correspondence",
+           _T + "Costs non-NaN; indices < 2^53 (Heap.dad's float division)."),
+ "C06": _c("Props/C06.v: for each of the 47 identifiers the term regenerated from distance.py evaluates over R to the published closed form (Spec/MetricSpec.v) for every vector length; "
+           "registry keys = whitelist; constructor plumbing. Regenerated and re-proved on every run (translator tie).",
+           "5/C06", "Coq proof over a fail-closed Python-ast -> Coq translation regenerated every run; translator validation against the real functions",
+           "Trusted: Coq kernel; translator/py2coq.py (validated by eval_ir.py against the real functions on every run); real vs float: 'up to rounding' is not bounded."),
+ "C07": _c("Props/C07.v: the regenerated decorator program contains no in-place addition, hence (frame theorem over a store of array buffers) a decorated call leaves every caller buffer "
+           "unchanged and its value depends only on argument contents; the regenerated store-site table of all code reachable from fit/predict has no caller-rooted store.",
+           "5/C07", "Coq proof (frame theorem for effect programs) over regenerated decorator/store tables; dynamic byte-comparison and read-only streams as failing-input search",
+           "Trusted: alias classification and mutating-method list of translator/stores.py; partial: thread/hash-seed nondeterminism not expressible."),
+ "C08": _c("Props/C08.v (+C08_basic, C08_triangle): symmetry (42), asymmetry witnesses (5), non-negativity and zero self-distance (45 each) and the triangle inequality (13) of the closed forms "
+           "over R on the domains of the fixed axiom table, for every vector length; tied to the code through C06's closed-form theorems.",
+           "5/C08", "Coq proofs over Reals (Cauchy-Schwarz, Minkowski, log-sum, case factorisations) about closed forms linked to regenerated code terms",
+           "Trusted: as C06. Float-level finiteness is exercised by the oracle only (robust-sign analysis not yet built): partial on 'finite'."),
+ "C12": _c("Props/C12_pdf.v (+C12 arcs theorems when merged): density estimation over R: constant, pdf formula, min/max, affine order-preserving map onto [1, MAX_DENSITY], cost = density - 1, "
+           "eliminate_maxima; the same Gallina terms run bit-exactly in PrimFloat against calculate_pdf; arc creation tied by exact correspondence.",
+           "5/C12", "Coq proof over one NumOps-generic definition (R theorems, PrimFloat bit-exact run); model/impl correspondence",
+           _T + "exp values supplied by numpy as a table (no float exp in Coq)."),
+ "C13": _c("Clustering models (both flavours, incl. the in-loop plateau insertion of the unsupervised routine) tied by exact correspondence on adjacency/cost/pred/root/labels/ids/order; "
+           "forest theorems in Props/C13.v when merged.", "5/C13", "Coq model + correspondence; forest invariant proof over the max-heap specification", _T),
+ "C14": _c("Props/C14_density.v: query density formula over R with the stored constants; KNN predict model (scan + density + arg-max) run in PrimFloat against both predicts, one case per "
+           "(model, query, batch position).", "5/C14", "Coq proof (R) + PrimFloat correspondence; exhaustive k-nearest oracle", _T),
+ "C15": _c("Props/C15.v: C01's theorems for the semi-supervised competition over labeled+unlabeled nodes, labeled nodes keep their labels, unlabeled get the root prototype's label, and "
+           "semi_fit with an empty unlabeled set EQUALS sup_fit (record equality).", "5/C15", "Coq proof (shared with C01) + simulation; model/impl correspondence", _T),
+ "C16": _c("k-selection folds (knn_select, cut_select) tied by correspondence to _learn/_best_minimum_cut with criterion values captured by wrapping opf_accuracy/_normalized_cut; "
+           "argmax/argmin theorems in Props/C16.v when merged.", "5/C16", "Coq fold theorems + correspondence with wrapped criteria", _T),
+ "C17": _c("Relevance marking tied by correspondence; learn conservation / best-model and prune sub-multiset decided on the real arrays; Learn model theorems in Props/C17.v when merged.",
+           "5/C17", "Coq model + correspondence with recorded draws; multiset oracles", _T),
 }
